@@ -1267,6 +1267,13 @@ def b_zip(interp, st, args, kwargs):
     yield st, ("ok", v)
 
 
+@handler(_itertools_pairwise := __import__("itertools").pairwise)
+def b_pairwise(interp, st, args, kwargs):
+    v = V("sym", t=interp.ctx.fresh_val("pairwise"))
+    v.tag = ("pairwise", args[0])
+    yield st, ("ok", v)
+
+
 @handler(builtins.reversed)
 def b_reversed(interp, st, args, kwargs):
     from . import loops
